@@ -199,6 +199,30 @@ theorem feasible_of_run_random_start_counterexample :
       ¬ Feasible (problemOf cexStart) [0, 2, 3, 1] :=
   ⟨_, (run_iff_admitted _ _ _ _ _).2 ⟨by decide, rfl⟩, by decide, by unfold Feasible; decide⟩
 
+/-- The bundled generator emits a capacity tensor whose last dimension (`genCapLen`, extracted from the
+source) is not the number of depots as soon as there is more than one depot — and `_step` takes its
+`num_depot` from that dimension. -/
+theorem generator_shape_mismatch (G : Nat) (hG : 1 < G) : genCapLen G ≠ G := by
+  rw [genCapLen_eq]; omega
+
+/-- the reset state the real code builds from the bundled generator with `num_loc = 4`, `num_depot = 2`:
+6 nodes, `to_deliver`/`current_length` sized for 2 depots, but `_step` sees `genCapLen 2 = 1` depot -/
+def cexGen : Inst :=
+  { N := 6, K := genCapLen 2, split0 := 4, KG := 2, cap := fun _ => 2,
+    D := fun _ _ => 1, openMode := false, wNum := 0, wDen := 1 }
+
+/-- the problem that instance stands for: 2 depots, 2 orders, vehicles of capacity 2 -/
+def cexGenProblem : Problem :=
+  { K := 2, h := 2, cap := fun _ => 2, D := fun _ _ => 1, openMode := false, wNum := 0, wDen := 1 }
+
+/-- With the bundled generator (outside `WF`, which demands one capacity entry per depot) depot 1 is
+treated as a pickup: the finished mask-confined episode `[0,1,2,3,5,4]` enters depot 1 while the vehicle
+of depot 0 is out, and the pairing is shifted. -/
+theorem feasible_of_run_generator_counterexample :
+    ∃ s, Run env cexGen (env.reset cexGen) [0, 1, 2, 3, 5, 4] s ∧ env.done cexGen s = true ∧
+      ¬ Feasible cexGenProblem [0, 1, 2, 3, 5, 4] :=
+  ⟨_, (run_iff_admitted _ _ _ _ _).2 ⟨by decide, rfl⟩, by decide, by unfold Feasible; decide⟩
+
 /-- Non-vacuity: the Spec accepts the corresponding solution in which the vehicle returns home. -/
 example : Feasible (problemOf cexHome) [0, 0, 1, 3, 4, 1, 2] := by unfold Feasible; decide
 
